@@ -54,7 +54,7 @@ PROPS = {
             fam("bcast-add", g(gen.fam_bcast_add), 150, 3000, view="values", rule="distinct (add|sub, broadcast-compatible shape pair with a != b, uses in 1..4): gradient dimensions and values (= sum of the seed over the broadcast positions) of both operands"),
             fam("ewise-grad-shape", g(gen.fam_ewise, grads=True), 100, 2000, view="shape", rule="distinct (op, shape pair, uses): only the *dimensions* of the stored gradients are compared"),
             fam("dag-shape", g(gen.fam_dag), 150, 3000, view="shape", rule="distinct random programs; only the dimensions of every stored gradient are compared"),
-            fam("sizes-grad", g(gen.fam_sizes, part="ewise", grads=True), 0, 0, view="values", rule="lengths 5..65 and long leading dimensions (127..258; to 1030 thorough): gradients of broadcast operands = sums over many broadcast positions"),
+            fam("sizes-grad", g(gen.fam_sizes, part="ewise", grads=True), 0, 0, view="values", rule="lengths 5..65 and long leading dimensions (127..258; to 385 thorough): gradients of broadcast operands = sums over many broadcast positions"),
         ],
         "assumptions": [F64_NOTE, SEED_NOTE],
     },
